@@ -9,19 +9,19 @@ add("C01", "exploration",
 add("C05", "fault_enumeration",
     "panic/over-read sanitizer: recover() on exact-capacity slices + poisoned-tail differential on every decoder; hostile-reply substitution at every transmission of live flows over the hooked transport",
     "Ring 1 enumerates every truncation and single-byte boundary mutation of valid encodings of all 29 decodable layers (plus fills, PRNG, registered gopacket chains, string decoders, every AES pad count); ring 2 enumerates a derived hostile corpus at every reply position of eight call flows, including authentic packets around hostile plaintexts. Any panic, hang or dependence on bytes beyond the datagram is a violation.",
-    "Go bounds checks are the memory-safety oracle (pure Go, no unsafe); inputs outside the enumerated/mutated families are sampled only.",
+    "Go bounds checks are the memory-safety oracle (pure Go, no unsafe); inputs outside the enumerated/mutated families are sampled only. Run twice: as the native build and as a linux/386 build (32-bit int).",
     "DESIGN.md 5/C05, 3.4")
 
 add("C08", "exploration",
     "round-trip monitor: serialise (fresh and reused buffer) -> decode -> field compare -> re-serialise, AES checked by independent crypto/cipher decryption",
     "Sampled values of the five two-way layers over their wire domains with payload lengths cycling through 0..200; equality of fields, inner payload, re-serialised bytes and (for AES) independently decrypted plaintext.",
-    "Values restricted to the wire domain; held on what was generated.",
+    "Values restricted to the wire domain; held on what was generated. Run twice: native and linux/386 build.",
     "DESIGN.md 5/C08")
 
 add("C20", "exploration",
     "exhaustive differential against arithmetic definitions through the exported API",
     "Every finite domain named by the property is enumerated completely (exhaustive: true) and compared with a directly written definition.",
-    "BCD only defined for digits 0..9; period encoder definition as documented by the library.",
+    "BCD only defined for digits 0..9; period encoder definition as documented by the library. Run twice: native and linux/386 build.",
     "DESIGN.md 5/C20")
 
 add("C12", "exploration",
@@ -75,7 +75,7 @@ add("C06", "exploration",
 add("C07", "exploration",
     "differential: independent value->bytes encoders (refcodec) vs library decoders, reflect-based comparison of every exported field; rejection oracle on checksums, lengths and short bodies; same values through the high-level API",
     "Random value assignments per layer over the wire domain, exhaustive sweeps of the 10-bit/4-bit Full Sensor Record fields and of ID strings (all encodings, lengths 0..31), every wrong checksum value, every short prefix.",
-    "refcodec follows the library's documented interpretation where the specification is under-determined; sampled elsewhere.",
+    "refcodec follows the library's documented interpretation where the specification is under-determined; sampled elsewhere. Run twice: native and linux/386 build.",
     "DESIGN.md 5/C07")
 
 add("C14", "exploration",
